@@ -104,11 +104,48 @@ CheckUntyped(rec) ==
     ELSE LET exp == UValueAt(s.toks, src, ProjMap(rec.proj), 1).v IN
          IF Logged(rec.tree) # exp THEN <<"C03", "tree-differs">> ELSE <<>>
 
+\* ------------------------------------------------------------------ merge (C14)
+\* texts = j1 .. jk followed by the driver's merge of them; flags = [chain succeeded,
+\* single unmarshal of the merged text succeeded, the two Go values are equal]
+CheckMerge(rec) ==
+    IF rec.texts = <<>> THEN <<>>      \* the generator gave up on this seed
+    ELSE
+    LET o == Opt(FALSE, FALSE, MaxD)
+        k == Len(rec.texts) - 1
+        trees == [i \in 1..k |-> Meaning(o, rec.texts[i])]
+        want == FoldLeft(MergeTree, trees[1], SubSeq(trees, 2, k))
+        got == Meaning(o, rec.texts[k + 1]) IN
+    IF Unordered(got) # Unordered(want) THEN <<"SPEC", "driver-merge-differs-from-MergeTree">>
+    ELSE IF rec.flags[1] /\ ~rec.flags[2] THEN <<"C14", "merged-text-rejected-but-chain-accepted">>
+    ELSE IF rec.flags[1] /\ ~rec.flags[3] THEN <<"C14", "chain-differs-from-merged">>
+    ELSE <<>>
+
+\* ------------------------------------------------------------------ ambiguous input (C08)
+\* outs = results [route, ok, rendering] under default, AllowDuplicateNames, AllowInvalidUTF8, both
+CheckAmbig(rec) ==
+    LET src == rec.texts[1]
+        v(ai, ad) == ValidOne(Opt(ai, ad, MaxD), src)
+        res(r) == Out(rec, r) IN
+    \* a duplicate name or ill-formed UTF-8 anywhere is an error for every target under the defaults
+    IF ~v(FALSE, FALSE) /\ res("default")[2] THEN <<"C08", "ambiguous-input-accepted-by-default">>
+    ELSE IF ~v(FALSE, TRUE) /\ res("ad")[2] THEN <<"C08", "invalid-utf8-accepted-with-AllowDuplicateNames">>
+    ELSE IF ~v(TRUE, FALSE) /\ res("ai")[2] THEN <<"C08", "duplicate-accepted-with-AllowInvalidUTF8">>
+    \* the options differ in nothing else: on input that is valid without them they change nothing
+    ELSE IF v(FALSE, FALSE) /\ (res("ad") # [res("default") EXCEPT ![1] = "ad"] \/ res("ai") # [res("default") EXCEPT ![1] = "ai"]
+                                \/ res("ad+ai") # [res("default") EXCEPT ![1] = "ad+ai"])
+         THEN <<"C08", "allow-options-change-result-on-unambiguous-input">>
+    \* input whose only problem is what the option allows: accepted iff the other option's twin accepts it
+    ELSE IF v(TRUE, FALSE) /\ ~v(FALSE, FALSE) /\ res("ai")[2] # res("ad+ai")[2] THEN <<"C08", "ai-vs-both-differ">>
+    ELSE IF v(FALSE, TRUE) /\ ~v(FALSE, FALSE) /\ res("ad")[2] # res("ad+ai")[2] THEN <<"C08", "ad-vs-both-differ">>
+    ELSE <<>>
+
 Check(rec) ==
     IF rec.panic # "" THEN <<"C20", "panic">>
     ELSE CASE rec.kind = "valid" -> CheckValid(rec)
            [] rec.kind = "roundtrip" -> CheckRoundTrip(rec)
            [] rec.kind = "untyped" -> CheckUntyped(rec)
+           [] rec.kind = "merge" -> CheckMerge(rec)
+           [] rec.kind = "ambig" -> CheckAmbig(rec)
            [] OTHER -> <<"SPEC", "unknown-kind">>
 
 Init == l = 1 /\ rej = <<>>
